@@ -455,8 +455,11 @@ def sec_properties(ctx, nd):
                                 impl = "vector"
                             except ValueError as e:
                                 v = None
+                                # sub-cause from the message when recognised, else from the inputs (a reworded message
+                                # of the same exception class is not a difference)
                                 impl = "invalid" if "Invalid properties" in str(e) else (
-                                    "not-square" if "square" in str(e) else "valueerror:" + str(e)[:40])
+                                    "not-square" if "square" in str(e) else
+                                    ("invalid" if not valid else ("not-square" if not square and alg != "hrr" else "valueerror")))
                             except ImportError:
                                 v, impl = None, "needs-scipy"
                         warned = any(issubclass(w.category, UserWarning) and "identity" in str(w.message) for w in wl)
